@@ -276,12 +276,55 @@ theorem tsOf_eq (fv nv : Int) (h0 : supported fv nv 0 = true) (L : List Ent) :
 /-- **what one scan computes**: it never fails, and its new table is exactly the declarative newest set -/
 theorem scan_spec (fv nv : Int) (h0 : supported fv nv 0 = true) (fs : List Ent) (old : Table Stamp) :
     scan true fv nv fs old = .ok
-      ⟨newestSpec fv nv fs,
-       (old.filter fun (k, _) => ((newestSpec fv nv fs).get? k).isNone).map (·.1),
-       ((newestSpec fv nv fs).filter fun (k, st) => old.get? k != some st).map (·.1)⟩ := by
+      ⟨newestSpec fv nv fs, dropKeys (newestSpec fv nv fs) old, loadKeys (newestSpec fv nv fs) old⟩ := by
   unfold scan
   rw [latestOf_ok]
   simp only [tsOf_eq fv nv h0 fs fs (fun _ h => h), ← newestSpec_eq]
+
+/-- a key of a table built by `filterMap` over distinct file names finds its own entry -/
+theorem get?_self_of_nodup {β} : ∀ (t : Table β), (t.map (·.1)).Nodup → ∀ kv ∈ t, t.get? kv.1 = some kv.2 := by
+  intro t
+  induction t with
+  | nil => intro _ kv h; simp at h
+  | cons a r ih =>
+    intro hn kv hkv
+    simp only [List.map_cons, List.nodup_cons] at hn
+    rcases List.mem_cons.mp hkv with rfl | hmem
+    · simp [Table.get?]
+    · have hne : (a.1 == kv.1) = false := by
+        have : a.1 ≠ kv.1 := fun h => hn.1 (h ▸ List.mem_map.mpr ⟨kv, hmem, rfl⟩)
+        simpa using this
+      have := ih hn.2 kv hmem
+      simp only [Table.get?] at this ⊢
+      simp [List.find?_cons, hne, this]
+
+theorem newestSpec_keys_sublist (fv nv : Int) (fs : List Ent) :
+    ((newestSpec fv nv fs).map (·.1)).Sublist (fs.map (·.fn)) := by
+  rw [newestSpec_eq]
+  unfold newestOn
+  generalize fs = L at *
+  suffices ∀ l : List Ent, ((l.filterMap fun e => match e.mtime with
+      | none => none
+      | some mt => if isNewest fv nv L e then some (e.fn, (mt, e.side)) else none).map (·.1)).Sublist (l.map (·.fn)) from
+    this L
+  intro l
+  induction l with
+  | nil => simp
+  | cons e t ih =>
+    simp only [List.filterMap_cons, List.map_cons]
+    split
+    · exact List.Sublist.cons _ ih
+    · rename_i b hb
+      have hfn : b.1 = e.fn := by
+        cases hm : e.mtime with
+        | none => simp [hm] at hb
+        | some mt =>
+          simp only [hm] at hb
+          split at hb
+          · simp only [Option.some.injEq] at hb; rw [← hb]
+          · simp at hb
+      simp only [List.map_cons, hfn]
+      exact ih.cons₂ _
 
 /-! ### copy-on-write shard set -/
 
